@@ -83,8 +83,11 @@
 // fixtures rsa1024 / p256 / dsa1024 / Ed("xgen-subject"), so e.g. key=rsa-e-neg1 carries a genuine
 // rsa1024 signature that the malformed key cannot verify); "selfissued=no" is signed by
 // Ed("xgen-issuer"). The alternatives of "sigval" other than "valid" replace that signature
-// (zero/ff keep its length; eq-n is the RSA modulus). The model has 28 fields and 328 non-default
-// alternatives: 329 / 51 416 / 5 082 698 assignments for d = 1 / 2 / 3 (~65 µs per Encode).
+// (zero/ff keep its length; eq-n is the RSA modulus). The model has 28 fields and 340 non-default
+// alternatives: 341 / 55 172 / 5 639 882 assignments for d = 1 / 2 / 3 (~65 µs per Encode).
+// The last 4 alternatives of "name" (cn-dns-*) and the last 8 of "san" (dns-*-ties, uri-ip-ties,
+// names-all-ties) carry host names that tie under case folding, trailing-dot / white-space trimming,
+// wildcard stripping, IDNA and across name kinds (added for C02's determinism oracle).
 //
 // Key kinds ("key" field): ed25519 (default), ed25519-31/-0/-33, rsa, rsa-e0, rsa-e-neg1,
 // rsa-e-neg65537, rsa-e-2p40, rsa-n0, rsa-n-neg, rsa-n1, ec-p224/p256/p384/p521, ec-offcurve,
